@@ -42,8 +42,6 @@ Definition divmodI (a b : Z) : Z * Z :=
   if r <? 0 then (if b >? 0 then (q - 1, r + b) else (q + 1, r - b)) else (q, r).
 Definition floorI (n d : Z) : Z := n / d.               (* mpz_fdiv_q *)
 Definition ceilI (n d : Z) : Z := - ((- n) / d).        (* mpz_cdiv_q *)
-Definition wrap_s64 (x : Z) : Z := (x + 2^63) mod 2^64 - 2^63.   (* two's complement int64_t *)
-Definition wrap_u64 (x : Z) : Z := x mod 2^64.
 
 (* ------------------------------------------------------------------ givrational.inl: predicates *)
 Definition isZero (a : rat) : bool := isZeroI (num a).
@@ -78,17 +76,12 @@ Definition mk_u64 (n d : Z) : option rat :=
   let s := if n =? 0 then (0, 1) else (n, d) in
   Some (reduce s).
 
-(* Rational(int64_t n, int64_t d) (and the int32_t pair, which forwards).
-   REPAIRED behaviour (frag/C10.fix-6.diff): for d <= 0 the negations are done on Integer (-Integer(n), -Integer(d));
-   the code as it is negates in int64_t, which overflows for INT64_MIN (mk_i64_asis). *)
+(* Rational(int64_t n, int64_t d) (and the int32_t pair, which forwards).  After 170b59e the negations for
+   d < 0 are done on Integer (-Integer(n), -Integer(d)), so there is no int64_t overflow to model. *)
 Definition mk_i64 (n d : Z) : option rat :=
   if d =? 0 then None else
   let s := if n =? 0 then (0, 1) else (0, 0) in          (* no else: falls through, overwritten below *)
   let s := if d >? 0 then (n, d) else (- n, - d) in
-  Some (reduce s).
-Definition mk_i64_asis (n d : Z) : option rat :=
-  if d =? 0 then None else
-  let s := if d >? 0 then (n, d) else (wrap_s64 (- n), wrap_s64 (- d)) in
   Some (reduce s).
 
 (* ------------------------------------------------------------------ givratcompare.C *)
